@@ -240,6 +240,7 @@ func (w *World) stepMain(pre *Snapshot, op Op) StepOut {
 			out.Abort = "accepted against the rules"
 		}
 		out.Viol = append(out.Viol, CheckInvariants(post)...)
+		out.Viol = append(out.Viol, replyNamesWhatReadsShow(op, reply, post)...)
 		return out
 	}
 
@@ -1205,4 +1206,30 @@ func redateLastCommand(root string, by time.Duration) (n int, ok bool) {
 		return 0, false
 	}
 	return n, true
+}
+
+// replyNamesWhatReadsShow is the part of "the reply tells the truth" that needs no expected
+// state: ids and edges a success value names must exist in the following read. It is used
+// where a request was accepted against the rules and the model has nothing to compare with.
+func replyNamesWhatReadsShow(op Op, reply map[string]any, post *Snapshot) []Violation {
+	var out []Violation
+	if reply == nil {
+		return nil
+	}
+	if id := asString(reply["id"]); id != "" && (op.Kind == "new_task" || op.Kind == "new_epic" || op.Kind == "set" || op.Kind == "claim_id") && post.Items[id] == nil {
+		out = append(out, Violation{"C16", fmt.Sprintf("the reply names id %q, which the following read does not show", id)})
+	}
+	if edges, ok := reply["edges"].([]any); ok && (op.Kind == "sequence" || op.Kind == "sequence_rm") {
+		for _, e := range edges {
+			m, _ := e.(map[string]any)
+			from, to := asString(m["from_id"]), asString(m["to_id"])
+			switch {
+			case post.Items[from] == nil || post.Items[to] == nil:
+				out = append(out, Violation{"C16", fmt.Sprintf("the reply reports the edge %q -> %q; the following read shows no item with id %q", from, to, map[bool]string{true: from, false: to}[post.Items[from] == nil])})
+			case op.Kind == "sequence" && !hasStr(post.Items[from].Deps, to):
+				out = append(out, Violation{"C16", fmt.Sprintf("the reply reports the edge %s -> %s; the following read of %s does not list it", from, to, from)})
+			}
+		}
+	}
+	return out
 }
